@@ -311,11 +311,16 @@ class Census:
         cache = self.__dict__.setdefault("_ek_cache", {})
         if ck in cache:
             return cache[ck]
-        if depth == 0:
-            cache[ck] = "UNKNOWN"      # cycle guard, overwritten below
-        res = self._set_elem_kind(e, f, depth)
-        if depth == 0:
-            cache[ck] = res
+        busy = self.__dict__.setdefault("_ek_busy", set())
+        if ck in busy:
+            return "UNKNOWN"           # cycle: the kind is decided by the other contributions
+        busy.add(ck)
+        try:
+            res = self._set_elem_kind(e, f, depth)
+        finally:
+            busy.discard(ck)
+        if depth <= 2 or res != "UNKNOWN":
+            cache[ck] = res            # (a result cut off by the depth bound deep in the recursion is not remembered)
         return res
 
     def _set_elem_kind(self, e, f, depth=0):
